@@ -1,4 +1,4 @@
-\* emission, heterogeneous assemblies of 3 blocks (p7+p19+singles, mixed+nogrid+p1, nogrid+p1+p7; both orientations): every action out of the
+\* emission, heterogeneous assemblies of 3 blocks (p7+p19+singles, mixed+nogrid+prism, nogrid+prism+families; both orientations): every action out of the
 \* initial state (k in -4..4); longer histories are covered by the thorough config (MaxLevel = 3) and by trace validation
 CONSTANTS K = 4  H = 1  NB = 3  Layouts = {"p7", "mixed", "nogrid"}  TieDi = TRUE  MaxLevel = 2
 ACTION_CONSTRAINT Emit
